@@ -4,7 +4,7 @@
    gives the same security — every live number, every history row, the same error when it fails.  Any number instance. *)
 From Coq Require Import List Bool Arith ZArith Lia.
 Import ListNotations.
-Require Import BT.Num BT.Base BT.Records BT.Engine BT.Proofs.Tac BT.Proofs.Frames.
+Require Import BT.Num BT.Base BT.Records BT.Engine BT.Ops BT.Proofs.Tac BT.Proofs.Frames.
 
 Section EL.
 Variable N : num.
@@ -450,6 +450,234 @@ Proof.
     destruct (strat_finish ps date i (strat_newpt date g) g2 _ paper) as [[g3 p3]|]; cbn; reflexivity.
 Qed.
 
+(* ---------- allocate / transact down a tree ---------- *)
+(* every strategy of the tree (paper copies aside) stands on row i *)
+Fixpoint clocked (i : nat) (n : node) : Prop :=
+  match n with
+  | NSec _ => True
+  | NStrat g kids _ _ => row_of (g_now g) = i /\ fold_right (fun k a => clocked i k /\ a) True kids
+  end.
+
+Definition swapNA (r : node * option (adj N)) : node * option (adj N) := (swapN (fst r), snd r).
+
+Lemma clocked_kids_Forall i (ks : list node) : fold_right (fun k a => clocked i k /\ a) True ks -> Forall (clocked i) ks.
+Proof. induction ks as [|k ks IH]; intros H; [constructor|]. destruct H as [H1 H2]. constructor; auto. Qed.
+
+(* the children loop of StrategyBase.allocate, named *)
+Section AK.
+Variable amount : carrier N.
+Fixpoint alloc_kids (ks : list node) (g : strat) {struct ks} : result (list node * strat) :=
+  match ks with
+  | [] => Ok ([], g)
+  | c :: ks' =>
+    bind (node_allocate (g_now g) (g_comm g) (nmul N amount (raw_weight c)) false c) (fun r =>
+    let '(c, oa) := r in
+    let g := apply_adj oa g in
+    bind (alloc_kids ks' g) (fun r2 => let '(ks'', g) := r2 in Ok (c :: ks'', g)))
+  end.
+End AK.
+
+Lemma node_allocate_strat pnow comm amount upd (g : strat) kids lz paper :
+  node_allocate pnow comm amount upd (NStrat g kids lz paper) =
+  bind (alloc_kids amount kids (g_adjust amount (n0 N) true g)) (fun r =>
+  let '(kids, g) := r in Ok (NStrat g kids lz paper, Some (mkAdj (nopp N amount) (n0 N) upd))).
+Proof. reflexivity. Qed.
+
+Lemma sec_allocate_id pnow comm amount upd (s s1 : sec) oa : sec_allocate pnow comm amount upd s = Ok (s1, oa) -> s_id s1 = s_id s.
+Proof.
+  intros E. unfold sec_allocate in E. apply bind_ok in E. destruct E as (s0 & E0 & E).
+  assert (I0 : s_id s0 = s_id s) by (destruct (s_needupdate s || _); [eapply sec_update_s_id; eassumption | inversion E0; reflexivity]).
+  assert (I1 : forall q u p' (x : sec) oa', sec_transact pnow comm q upd u p' s0 = Ok (x, oa') -> s_id x = s_id s0).
+  { intros q u p' x oa' Ht. unfold sec_transact in Ht. apply bind_ok in Ht. destruct Ht as (y & Ey & Ht).
+    assert (Iy : s_id y = s_id s0) by (destruct (u && _); [eapply sec_update_s_id; eassumption | inversion Ey; reflexivity]).
+    destruct (nis_zero N q); [inversion Ht; subst; exact Iy|].
+    destruct (match p' with Some _ => negb (s_bo_set y) | None => false end); [discriminate|].
+    apply bind_ok in Ht. destruct Ht as ([[[fo o] fe] bp] & _ & Ht). inversion Ht; subst. destruct y; exact Iy. }
+  destruct (nis_zero N amount); [inversion E; subst; exact I0|].
+  destruct (s_price s0) as [pr|]; [|discriminate]. destruct (nis_zero N pr); [discriminate|]. cbv zeta in E.
+  match type of E with (if nis_zero N ?qq then _ else _) = _ => destruct (nis_zero N qq) end; [inversion E; subst; exact I0|].
+  apply bind_ok in E. destruct E as (q1 & _ & E). rewrite (I1 _ _ _ _ _ E). exact I0.
+Qed.
+
+Definition PAlloc (i : nat) (k : node) : Prop :=
+  forall pnow comm amount upd, row_of pnow = i -> clocked i k -> agreeN i k ->
+    node_allocate pnow comm amount upd (swapN k) = rmap swapNA (node_allocate pnow comm amount upd k).
+
+Lemma alloc_kids_swap i amount : forall (ks : list node) (gg : strat),
+  Forall (PAlloc i) ks -> Forall (clocked i) ks -> Forall (agreeN i) ks -> row_of (g_now gg) = i ->
+  alloc_kids amount (map swapN ks) gg = rmap (fun r => (map swapN (fst r), snd r)) (alloc_kids amount ks gg).
+Proof.
+  induction ks as [|c ks IHk]; intros gg HF HC HA Hgg; [reflexivity|].
+  pose proof (Forall_inv HF) as Hc0. pose proof (Forall_inv_tail HF) as HF'. pose proof (Forall_inv HC) as Cc.
+  pose proof (Forall_inv_tail HC) as HC'. pose proof (Forall_inv HA) as Ac. pose proof (Forall_inv_tail HA) as HA'.
+  cbn [map alloc_kids]. destruct (raw_swap c) as (_ & _ & Hw & _). rewrite Hw.
+  rewrite (Hc0 _ _ _ _ Hgg Cc Ac).
+  destruct (node_allocate (g_now gg) (g_comm gg) (nmul N amount (raw_weight c)) false c) as [[c1 oa1]|]; cbn [rmap bind swapNA fst snd]; [|reflexivity].
+  assert (Hgg1 : row_of (g_now (apply_adj oa1 gg)) = i)
+    by (destruct oa1 as [a1|]; [unfold apply_adj, g_adjust; destruct gg; exact Hgg | exact Hgg]).
+  rewrite (IHk _ HF' HC' HA' Hgg1).
+  destruct (alloc_kids amount ks (apply_adj oa1 gg)) as [[ks2 g2]|]; cbn; reflexivity.
+Qed.
+
+Theorem node_allocate_swap i (n : node) : PAlloc i n.
+Proof.
+  induction n as [s | g kids lz paper IH] using node_ind2; intros pnow comm amount upd Hp Hc Ha.
+  - cbn [swapN node_allocate]. rewrite <- Hp in Ha. rewrite (sec_allocate_swap _ _ _ _ _ _ Ha).
+    destruct (sec_allocate pnow comm amount upd s) as [[s1 oa]|] eqn:E; cbn; [|reflexivity].
+    unfold swapNA; cbn. rewrite (sec_allocate_id _ _ _ _ _ _ _ E). reflexivity.
+  - destruct Hc as [Hg Hk]. destruct Ha as [Hak Hap]. cbn [swapN]. fold (swapP paper). rewrite !node_allocate_strat.
+    assert (Hg0 : row_of (g_now (g_adjust amount (n0 N) true g)) = i) by (unfold g_adjust; destruct g; exact Hg).
+    rewrite (alloc_kids_swap i amount kids _ IH (clocked_kids_Forall _ _ Hk) (agree_kids_Forall _ _ Hak) Hg0).
+    destruct (alloc_kids amount kids (g_adjust amount (n0 N) true g)) as [[ks2 g2]|]; cbn; reflexivity.
+Qed.
+
+(* allocate keeps every clock and every column *)
+Lemma apply_adj_now (oa : option (adj N)) (g : strat) : g_now (apply_adj oa g) = g_now g.
+Proof. destruct oa as [a|]; [unfold apply_adj, g_adjust; destruct g; reflexivity | reflexivity]. Qed.
+
+Definition PKeep (k : node) : Prop :=
+  forall pnow comm amount upd k' oa, node_allocate pnow comm amount upd k = Ok (k', oa) ->
+    (forall i, clocked i k -> clocked i k') /\ (forall j, agreeN j k -> agreeN j k').
+
+Lemma alloc_kids_keep amount : forall (ks : list node) (gg : strat) ks' g',
+  Forall PKeep ks -> alloc_kids amount ks gg = Ok (ks', g') ->
+  g_now g' = g_now gg /\
+  (forall i, fold_right (fun k a => clocked i k /\ a) True ks -> fold_right (fun k a => clocked i k /\ a) True ks') /\
+  (forall j, fold_right (fun k a => agreeN j k /\ a) True ks -> fold_right (fun k a => agreeN j k /\ a) True ks').
+Proof.
+  induction ks as [|c ks IHk]; intros gg ks' g' HF H.
+  - cbn in H. inversion H; subst. repeat split; auto.
+  - pose proof (Forall_inv HF) as Hc0. pose proof (Forall_inv_tail HF) as HF'. cbn [alloc_kids] in H.
+    apply bind_ok in H. destruct H as ([c1 oa1] & Ec & H). apply bind_ok in H. destruct H as ([ks2 g2] & Ek & H). inversion H; subst.
+    destruct (IHk _ _ _ HF' Ek) as (N1 & C1 & A1). destruct (Hc0 _ _ _ _ _ _ Ec) as [Cc Ac].
+    rewrite N1, apply_adj_now. split; [reflexivity|]. split.
+    + intros i [H1 H2]. cbn [fold_right]. split; [apply Cc; exact H1 | apply C1; exact H2].
+    + intros j [H1 H2]. cbn [fold_right]. split; [apply Ac; exact H1 | apply A1; exact H2].
+Qed.
+
+Theorem node_allocate_keep (n : node) : PKeep n.
+Proof.
+  induction n as [s | g kids lz paper IH] using node_ind2; intros pnow comm amount upd k' oa H.
+  - cbn [node_allocate] in H. apply bind_ok in H. destruct H as ([s1 oa1] & E & H). inversion H; subst. split; [intros; exact I|].
+    intros j Ha. cbn [agreeN] in *. rewrite (sec_allocate_id _ _ _ _ _ _ _ E). eapply sec_allocate_agree; eauto.
+  - rewrite node_allocate_strat in H. apply bind_ok in H. destruct H as ([ks2 g2] & Ek & H). inversion H; subst.
+    destruct (alloc_kids_keep _ _ _ _ _ IH Ek) as (N1 & C1 & A1).
+    split.
+    + intros i [Hg Hk]. cbn [clocked]. split; [|apply C1; exact Hk]. rewrite N1. unfold g_adjust; destruct g; exact Hg.
+    + intros j [Hk Hp]. cbn [agreeN]. split; [apply A1; exact Hk | exact Hp].
+Qed.
+
+(* StrategyBase.flatten's loop (market-value branch), named *)
+Lemma flatten_kids_swap i : forall (ks : list node) (g : strat),
+  Forall (clocked i) ks -> Forall (agreeN i) ks -> row_of (g_now g) = i ->
+  flatten_kids false (map swapN ks) g = rmap (fun r => (map swapN (fst r), snd r)) (flatten_kids false ks g).
+Proof.
+  induction ks as [|c ks IHk]; intros g HC HA Hg; [reflexivity|].
+  pose proof (Forall_inv HC) as Cc. pose proof (Forall_inv_tail HC) as HC'. pose proof (Forall_inv HA) as Ac. pose proof (Forall_inv_tail HA) as HA'.
+  cbn [map flatten_kids]. destruct (raw_swap c) as (Hv & _). rewrite Hv.
+  destruct (negb (neqb N (raw_value c) (n0 N))).
+  - rewrite (node_allocate_swap i c _ _ _ _ Hg Cc Ac).
+    destruct (node_allocate (g_now g) (g_comm g) (nopp N (raw_value c)) false c) as [[c1 oa1]|]; cbn [rmap bind swapNA fst snd]; [|reflexivity].
+    assert (Hg1 : row_of (g_now (apply_adj oa1 g)) = i) by (rewrite apply_adj_now; exact Hg).
+    rewrite (IHk _ HC' HA' Hg1). destruct (flatten_kids false ks (apply_adj oa1 g)) as [[ks2 g2]|]; cbn; reflexivity.
+  - cbn [bind]. assert (Hg1 : row_of (g_now (apply_adj None g)) = i) by exact Hg.
+    rewrite (IHk _ HC' HA' Hg1). destruct (flatten_kids false ks (apply_adj None g)) as [[ks2 g2]|]; cbn; reflexivity.
+Qed.
+
+Lemma flatten_kids_keep : forall (ks : list node) (g : strat) ks' g',
+  flatten_kids false ks g = Ok (ks', g') ->
+  g_now g' = g_now g /\
+  (forall i, Forall (clocked i) ks -> Forall (clocked i) ks') /\ (forall j, Forall (agreeN j) ks -> Forall (agreeN j) ks').
+Proof.
+  induction ks as [|c ks IHk]; intros g ks' g' H.
+  - cbn in H. inversion H; subst. repeat split; auto.
+  - cbn [flatten_kids] in H. apply bind_ok in H. destruct H as ([c1 oa1] & Ec & H).
+    apply bind_ok in H. destruct H as ([ks2 g2] & Ek & H). inversion H; subst.
+    destruct (IHk _ _ _ Ek) as (N1 & C1 & A1). rewrite N1, apply_adj_now. split; [reflexivity|].
+    assert (K : (forall i, clocked i c -> clocked i c1) /\ (forall j, agreeN j c -> agreeN j c1)).
+    { destruct (negb (neqb N (raw_value c) (n0 N))); [exact (node_allocate_keep c _ _ _ _ _ _ Ec) | inversion Ec; subst; split; auto]. }
+    destruct K as [Kc Ka]. split.
+    + intros i HC. constructor; [apply Kc; exact (Forall_inv HC) | apply C1; exact (Forall_inv_tail HC)].
+    + intros j HA. constructor; [apply Ka; exact (Forall_inv HA) | apply A1; exact (Forall_inv_tail HA)].
+Qed.
+
+(* an update puts every strategy of the tree on its date *)
+Lemma strat_roll_now date (g : strat) : g_now (strat_roll date g) = date.
+Proof. unfold strat_roll. destruct (g_now g); [destruct (onat_eqb date _)|]; destruct g; reflexivity. Qed.
+
+Lemma swv_now_gen np i v nl b (g g' : strat) : strat_write_value np i v nl b g = Ok g' -> g_now g' = g_now g.
+Proof.
+  unfold strat_write_value. destruct (strat_changed _ _ _ _); intros H; [|inversion H; reflexivity].
+  apply bind_ok in H. destruct H as (p & _ & H). inversion H; subst.
+  unfold strat_set_price, strat_set_value. destruct (g_bo_set _); destruct g; reflexivity.
+Qed.
+
+Lemma sfin_now_gen date i np (g g' : strat) kids paper paper' :
+  strat_finish ps date i np g kids paper = Ok (g', paper') -> g_now g' = g_now g.
+Proof.
+  unfold strat_finish. intros H. apply bind_ok in H. destruct H as (g1 & E1 & H).
+  assert (C1 : g_now g1 = g_now g).
+  { destruct (has_strat_kids kids); [|inversion E1; reflexivity]. destruct date; [|discriminate]. inversion E1; subst. destruct g; reflexivity. }
+  destruct (g_paper_trade _).
+  - destruct paper as [p|]; [|discriminate]. apply bind_ok in H. destruct H as (p1 & _ & H). inversion H; subst.
+    rewrite <- C1. unfold strat_set_price, strat_set_rows. destruct g1; reflexivity.
+  - inversion H; subst. rewrite <- C1. unfold strat_set_rows. destruct g1; reflexivity.
+Qed.
+
+Lemma clocked_set_weight i w (k : node) : clocked i k -> clocked i (set_weight w k).
+Proof. destruct k as [s|g kk lz pp]; cbn; [auto | destruct g; auto]. Qed.
+
+Lemma clocked_kid_weights i fi v nl (ks : list node) : Forall (clocked i) ks -> Forall (clocked i) (set_kid_weights fi v nl ks).
+Proof.
+  unfold set_kid_weights. induction ks as [|k ks IH]; intros H; [constructor|]. cbn [map].
+  constructor; [|apply IH; exact (Forall_inv_tail H)]. pose proof (Forall_inv H) as Hk.
+  unfold kid_weight. destruct (skipped k); [exact Hk|]. destruct fi; apply clocked_set_weight; exact Hk.
+Qed.
+
+Lemma upd_kids_clocked (upd : node -> result node) np bo date inow i : forall (ks : list node) val notl bop cpn ks' acc,
+  Forall (fun k => forall k', upd k = Ok k' -> clocked i k') ks ->
+  upd_kids upd np bo date inow ks val notl bop cpn = Ok (ks', acc) -> Forall (clocked i) ks'.
+Proof.
+  induction ks as [|k ks IH]; intros val notl bop cpn ks' acc HF H.
+  - cbn in H. inversion H; subst. constructor.
+  - pose proof (Forall_inv HF) as Hk. pose proof (Forall_inv_tail HF) as HF'. destruct k as [s|g kk lz pp].
+    + cbn [upd_kids] in H.
+      assert (Q : forall (s0 : sec) c0,
+                (if negb (s_needupdate s0)
+                 then ' (ks'', acc0) <- upd_kids upd np bo date inow ks val notl bop c0;; Ok (NSec s0 :: ks'', acc0)
+                 else ' s1 <- sec_update date inow s0;;
+                      ' (ks'', acc0) <- upd_kids upd np bo date inow ks (nadd N val (s_value s1)) (nadd N notl (nabs N (s_notl s1)))
+                                                (if bo then nadd N bop (s_bidoffer_paid s1) else bop) c0;;
+                      Ok (NSec s1 :: ks'', acc0)) = Ok (ks', acc) -> Forall (clocked i) ks').
+      { intros s0 c0 H0. destruct (negb (s_needupdate s0)).
+        - apply bind_ok in H0. destruct H0 as ([ks2 a2] & E & H0). inversion H0; subst. constructor; [exact I | eapply IH; eauto].
+        - apply bind_ok in H0. destruct H0 as (s1 & Es & H0). apply bind_ok in H0. destruct H0 as ([ks2 a2] & E & H0).
+          inversion H0; subst. constructor; [exact I | eapply IH; eauto]. }
+      destruct np; [exact (Q _ _ H) | exact (Q _ _ H)].
+    + cbn [upd_kids] in H. apply bind_ok in H. destruct H as (c1 & Ec & H).
+      apply bind_ok in H. destruct H as ([ks2 a2] & E & H). inversion H; subst.
+      constructor; [eapply Hk; eauto | eapply IH; eauto].
+Qed.
+
+Lemma Forall_clocked_fold i (ks : list node) : Forall (clocked i) ks -> fold_right (fun k a => clocked i k /\ a) True ks.
+Proof. induction ks as [|k ks IH]; intros H; [exact I|]. split; [exact (Forall_inv H) | apply IH; exact (Forall_inv_tail H)]. Qed.
+
+Theorem node_update_clocked date i (n : node) : forall n', node_update ps date i n = Ok n' -> clocked (row_of date) n'.
+Proof.
+  induction n as [s | g kids lz paper IH] using node_ind2; intros n' H.
+  - cbn [node_update] in H. apply bind_ok in H. destruct H as (s1 & _ & H). inversion H; subst. exact I.
+  - cbn [node_update] in H. apply bind_ok in H. destruct H as ([[[np g1] kids1] [[val notl] bop]] & E0 & H).
+    unfold strat_update_with in E0. apply bind_ok in E0. destruct E0 as ([kids0 [[[v0 nn0] b0] c0]] & Eu & E0).
+    inversion E0; subst; clear E0.
+    apply bind_ok in H. destruct H as (g2 & Ew & H). apply bind_ok in H. destruct H as ([g3 p3] & Ef & H). inversion H; subst.
+    cbn [clocked]. split.
+    + rewrite (sfin_now_gen _ _ _ _ _ _ _ _ Ef), (swv_now_gen _ _ _ _ _ _ _ Ew).
+      match goal with |- row_of (g_now (set_g_capital ?v ?gg)) = _ =>
+        change (g_now (set_g_capital v gg)) with (g_now gg) end.
+      rewrite strat_roll_now. reflexivity.
+    + apply Forall_clocked_fold. apply clocked_kid_weights. eapply upd_kids_clocked; [|exact Eu]. exact IH.
+Qed.
+
 (* ---------- the columns never change, so agreement on any row is kept ---------- *)
 Definition PSA (j : nat) : Prop := forall date p p', ps date p = Ok p' -> agreeN j (fst p) -> agreeN j (fst p').
 
@@ -517,6 +745,173 @@ Proof.
       * inversion Ef; subst. exact Hp.
 Qed.
 
+(* ---------- root.update: the bankruptcy test, the liquidation, the nested refresh ---------- *)
+Lemma Forall_agree_fold j (ks : list node) : Forall (agreeN j) ks -> fold_right (fun k a => agreeN j k /\ a) True ks.
+Proof. induction ks as [|k ks IH]; intros H; [exact I|]. split; [exact (Forall_inv H) | apply IH; exact (Forall_inv_tail H)]. Qed.
+
+Definition swapSU (r : bool * strat * list node * (carrier N * carrier N * carrier N)) :=
+  let '(np, g, ks, acc) := r in (np, g, map swapN ks, acc).
+
+Lemma suw_swap date i (g : strat) (kids : list node) :
+  PS date i -> Forall (agreeN i) kids ->
+  strat_update_with (node_update ps date i) date i g (map swapN kids) =
+  rmap swapSU (strat_update_with (node_update ps date i) date i g kids).
+Proof.
+  intros HPS HA. unfold strat_update_with.
+  assert (HF : Forall (fun k => agreeN i k /\ node_update ps date i (swapN k) = rmap swapN (node_update ps date i k)) kids).
+  { eapply Forall_impl; [|exact HA]. intros k Hk. split; [exact Hk | apply node_update_swap; assumption]. }
+  rewrite (upd_kids_swap _ _ _ _ _ _ _ _ _ _ HF).
+  destruct (upd_kids (node_update ps date i) (strat_newpt date g) (g_bo_set (strat_roll date g)) date i kids
+                     (g_capital (strat_roll date g)) (n0 N) (n0 N) (n0 N)) as [[ks1 [[[v1 n1] b1] c1]]|]; cbn; reflexivity.
+Qed.
+
+Lemma suw_keep date i j (g g1 : strat) (kids kids1 : list node) np acc :
+  PSA j -> strat_update_with (node_update ps date i) date i g kids = Ok (np, g1, kids1, acc) ->
+  g_now g1 = date /\ Forall (clocked (row_of date)) kids1 /\ (Forall (agreeN j) kids -> Forall (agreeN j) kids1).
+Proof.
+  intros HP H. unfold strat_update_with in H. apply bind_ok in H. destruct H as ([kids0 [[[v0 nn0] b0] c0]] & Eu & H).
+  inversion H; subst; clear H. split; [|split].
+  - match goal with |- g_now (set_g_capital ?v ?gg) = _ => change (g_now (set_g_capital v gg)) with (g_now gg) end. apply strat_roll_now.
+  - eapply upd_kids_clocked; [|exact Eu]. apply Forall_forall. intros k _ k' Hk. eapply node_update_clocked; eauto.
+  - intros HA. apply agree_kids_Forall. eapply upd_kids_agree; [|exact Eu|apply Forall_agree_fold; exact HA].
+    apply Forall_forall. intros k _ k' Hu Hak. eapply node_update_agree; eauto.
+Qed.
+
+Lemma all_skipped_swap (ks : list node) : all_skipped (map swapN ks) = all_skipped ks.
+Proof.
+  unfold all_skipped. induction ks as [|k ks IH]; [reflexivity|]. cbn [map forallb].
+  destruct (raw_swap k) as (_ & _ & _ & _ & Hs & _). rewrite Hs, IH. reflexivity.
+Qed.
+
+Lemma date_row_row nrows date i : date_row nrows date = Ok i -> i = row_of date.
+Proof. unfold date_row. destruct date as [d|]; [destruct (Nat.ltb d nrows); [|discriminate]|]; intros H; inversion H; reflexivity. Qed.
+
+Theorem root_update_swap date (tr : tree) :
+  PS date (row_of date) -> PSA (row_of date) -> agreeN (row_of date) (fst tr) ->
+  root_update ps date (swapT tr) = rmap swapT (root_update ps date tr).
+Proof.
+  intros HPS HPA Ha. unfold root_update, swapT. destruct tr as [n st]. cbn [fst snd] in *.
+  destruct n as [s|g kids lz paper]; [reflexivity|]. destruct Ha as [Hak Hap]. cbn [swapN]. fold (swapP paper).
+  destruct (date_row (g_nrows g) date) as [i|] eqn:Ed; cbn [bind]; [|reflexivity].
+  pose proof (date_row_row _ _ _ Ed) as Hi. subst i.
+  pose proof (agree_kids_Forall _ _ Hak) as HA.
+  rewrite (suw_swap _ _ _ _ HPS HA).
+  destruct (strat_update_with (node_update ps date (row_of date)) date (row_of date) g kids) as [[[[np g1] kids1] [[val notl] bop]]|] eqn:E1;
+    cbn [rmap bind swapSU]; [|reflexivity].
+  destruct (suw_keep _ _ (row_of date) _ _ _ _ _ _ HPA E1) as (Hn1 & HC1 & HA1). specialize (HA1 HA).
+  destruct (nltb N val (n0 N) && negb (g_bankrupt g1) && negb (g_fi g1) && negb (nis_zero N val)).
+  - (* the bankruptcy branch *)
+    assert (Hgb : row_of (g_now (set_g_bankrupt true g1)) = row_of date) by (rewrite <- Hn1; destruct g1; reflexivity).
+    rewrite (flatten_kids_swap _ _ _ HC1 HA1 Hgb).
+    destruct (flatten_kids false kids1 (set_g_bankrupt true g1)) as [[kids2 g2]|] eqn:E2; cbn [rmap bind fst snd]; [|reflexivity].
+    destruct (flatten_kids_keep _ _ _ _ E2) as (Hn2 & HC2 & HA2). specialize (HC2 _ HC1). specialize (HA2 _ HA1).
+    destruct (strat_write_value np (row_of date) val notl bop g2) as [g3|]; cbn [bind]; [|reflexivity].
+    rewrite all_skipped_swap. destruct (all_skipped kids2).
+    + rewrite (strat_finish_swap _ _ _ _ _ _ HPS Hap).
+      destruct (strat_finish ps date (row_of date) np g3 kids2 paper) as [[g4 p4]|]; cbn; reflexivity.
+    + rewrite (suw_swap _ _ _ _ HPS HA2).
+      destruct (strat_update_with (node_update ps date (row_of date)) date (row_of date) g3 kids2) as [[[[np5 g5] kids5] [[val5 notl5] bop5]]|] eqn:E5;
+        cbn [rmap bind swapSU]; [|reflexivity].
+      destruct (strat_write_value false (row_of date) val5 notl5 bop5 g5) as [g6|]; cbn [bind]; [|reflexivity].
+      change (map (kid_weight false (g_value g6) (g_notl g6)) (map swapN kids5)) with (set_kid_weights false (g_value g6) (g_notl g6) (map swapN kids5)).
+      rewrite set_kid_weights_swap.
+      rewrite (strat_finish_swap _ _ _ _ _ _ HPS Hap).
+      destruct (strat_finish ps date (row_of date) false g6 (set_kid_weights false (g_value g6) (g_notl g6) kids5) paper) as [[g7 p7]|] eqn:E7;
+        cbn [rmap bind fst snd]; [|reflexivity].
+      change (map (kid_weight false (g_value g7) (g_notl g7)) (map swapN (set_kid_weights false (g_value g6) (g_notl g6) kids5)))
+        with (set_kid_weights false (g_value g7) (g_notl g7) (map swapN (set_kid_weights false (g_value g6) (g_notl g6) kids5))).
+      rewrite set_kid_weights_swap.
+      assert (Hp7 : match p7 with Some (pn, _) => agreeN (row_of date) pn | None => True end).
+      { unfold strat_finish in E7. apply bind_ok in E7. destruct E7 as (g8 & _ & E7). destruct (g_paper_trade _).
+        - destruct paper as [[pn0 st0]|]; [|discriminate]. cbn [bind] in E7. inversion E7; subst. exact Hap.
+        - inversion E7; subst. exact Hap. }
+      rewrite (strat_finish_swap _ _ _ _ _ _ HPS Hp7).
+      destruct (strat_finish ps date (row_of date) np g7 _ p7) as [[g9 p9]|]; cbn; reflexivity.
+  - destruct (strat_write_value np (row_of date) val notl bop g1) as [g2|]; cbn [bind]; [|reflexivity].
+    change (map (kid_weight (g_fi g2) (g_value g2) (g_notl g2)) (map swapN kids1)) with (set_kid_weights (g_fi g2) (g_value g2) (g_notl g2) (map swapN kids1)).
+    rewrite set_kid_weights_swap, (strat_finish_swap _ _ _ _ _ _ HPS Hap).
+    destruct (strat_finish ps date (row_of date) np g2 _ paper) as [[g3 p3]|]; cbn; reflexivity.
+Qed.
+
+Definition paper_agree (j : nat) (paper : option (node * bool)) : Prop :=
+  match paper with Some (pn, _) => agreeN j pn | None => True end.
+
+Lemma sfin_paper_agree date i j np (g g' : strat) kids paper paper' :
+  PSA j -> strat_finish ps date i np g kids paper = Ok (g', paper') -> paper_agree j paper -> paper_agree j paper'.
+Proof.
+  intros HP H Hp. unfold strat_finish in H. apply bind_ok in H. destruct H as (g1 & _ & H). destruct (g_paper_trade _).
+  - destruct paper as [[pn st]|]; [|discriminate]. apply bind_ok in H. destruct H as ([pn1 st1] & Ep & H). inversion H; subst.
+    destruct np; [exact (HP _ _ _ Ep Hp) | inversion Ep; subst; exact Hp].
+  - inversion H; subst. exact Hp.
+Qed.
+
+Lemma agree_kid_weights_F j fi v nl (ks : list node) : Forall (agreeN j) ks -> Forall (agreeN j) (set_kid_weights fi v nl ks).
+Proof. intros H. apply agree_kids_Forall. apply agree_kid_weights. apply Forall_agree_fold. exact H. Qed.
+
+Theorem root_update_agree date j (tr tr' : tree) :
+  PSA j -> root_update ps date tr = Ok tr' -> agreeN j (fst tr) -> agreeN j (fst tr').
+Proof.
+  intros HP H Ha. unfold root_update in H. destruct tr as [n st]. cbn [fst snd] in *.
+  destruct n as [s|g kids lz paper]; [discriminate|]. destruct Ha as [Hak Hap]. fold (paper_agree j paper) in Hap.
+  apply bind_ok in H. destruct H as (i & Ed & H).
+  apply bind_ok in H. destruct H as ([[[np g1] kids1] [[val notl] bop]] & E1 & H).
+  destruct (suw_keep _ _ j _ _ _ _ _ _ HP E1) as (_ & _ & HA1). specialize (HA1 (agree_kids_Forall _ _ Hak)).
+  destruct (nltb N val (n0 N) && negb (g_bankrupt g1) && negb (g_fi g1) && negb (nis_zero N val)).
+  - apply bind_ok in H. destruct H as ([kids2 g2] & E2 & H).
+    destruct (flatten_kids_keep _ _ _ _ E2) as (_ & _ & HA2). specialize (HA2 _ HA1).
+    apply bind_ok in H. destruct H as (g3 & _ & H). destruct (all_skipped kids2).
+    + apply bind_ok in H. destruct H as ([g4 p4] & Ef & H). inversion H; subst. cbn [fst agreeN].
+      split; [apply Forall_agree_fold; exact HA2 | exact (sfin_paper_agree _ _ _ _ _ _ _ _ _ HP Ef Hap)].
+    + apply bind_ok in H. destruct H as ([[[np5 g5] kids5] [[val5 notl5] bop5]] & E5 & H).
+      destruct (suw_keep _ _ j _ _ _ _ _ _ HP E5) as (_ & _ & HA5). specialize (HA5 HA2).
+      apply bind_ok in H. destruct H as (g6 & _ & H). apply bind_ok in H. destruct H as ([g7 p7] & E7 & H).
+      apply bind_ok in H. destruct H as ([g9 p9] & E9 & H). inversion H; subst. cbn [fst agreeN].
+      split; [apply Forall_agree_fold; do 2 apply agree_kid_weights_F; exact HA5|].
+      exact (sfin_paper_agree _ _ _ _ _ _ _ _ _ HP E9 (sfin_paper_agree _ _ _ _ _ _ _ _ _ HP E7 Hap)).
+  - apply bind_ok in H. destruct H as (g2 & _ & H). apply bind_ok in H. destruct H as ([g3 p3] & Ef & H). inversion H; subst.
+    cbn [fst agreeN]. split; [apply Forall_agree_fold; apply agree_kid_weights_F; exact HA1 | exact (sfin_paper_agree _ _ _ _ _ _ _ _ _ HP Ef Hap)].
+Qed.
+
+(* "if self.root.stale: self.root.update(self.root.now)" *)
+Lemma root_now_swap (tr : tree) : root_now (swapT tr) = root_now tr.
+Proof. destruct tr as [n st]. destruct n as [s|g k l p]; cbn; [generalize (F (s_id s)); intros D; destruct s, D; reflexivity | reflexivity]. Qed.
+
+Theorem refresh_swap (tr : tree) :
+  PS (root_now tr) (row_of (root_now tr)) -> PSA (row_of (root_now tr)) -> agreeN (row_of (root_now tr)) (fst tr) ->
+  refresh ps (swapT tr) = rmap swapT (refresh ps tr).
+Proof.
+  intros H1 H2 H3. unfold refresh. rewrite root_now_swap. change (snd (swapT tr)) with (snd tr).
+  destruct (snd tr); [apply root_update_swap; assumption | reflexivity].
+Qed.
+
+Theorem refresh_agree j (tr tr' : tree) : PSA j -> refresh ps tr = Ok tr' -> agreeN j (fst tr) -> agreeN j (fst tr').
+Proof. unfold refresh. intros HP H Ha. destruct (snd tr); [eapply root_update_agree; eauto | inversion H; subst; exact Ha]. Qed.
+
+Lemma root_update_now date (tr tr' : tree) : root_update ps date tr = Ok tr' -> root_now tr' = date.
+Proof.
+  intros H. unfold root_update in H. destruct tr as [n st]. cbn [fst snd] in *.
+  destruct n as [s|g kids lz paper]; [discriminate|].
+  apply bind_ok in H. destruct H as (i & Ed & H).
+  apply bind_ok in H. destruct H as ([[[np g1] kids1] [[val notl] bop]] & E1 & H).
+  assert (Hn1 : g_now g1 = date).
+  { unfold strat_update_with in E1. apply bind_ok in E1. destruct E1 as ([kids0 [[[v0 nn0] b0] c0]] & _ & E1). inversion E1; subst.
+    match goal with |- g_now (set_g_capital ?v ?gg) = _ => change (g_now (set_g_capital v gg)) with (g_now gg) end. apply strat_roll_now. }
+  destruct (nltb N val (n0 N) && negb (g_bankrupt g1) && negb (g_fi g1) && negb (nis_zero N val)).
+  - apply bind_ok in H. destruct H as ([kids2 g2] & E2 & H). destruct (flatten_kids_keep _ _ _ _ E2) as (Hn2 & _ & _).
+    assert (Hb : g_now (set_g_bankrupt true g1) = g_now g1) by (destruct g1; reflexivity).
+    apply bind_ok in H. destruct H as (g3 & Ew & H). pose proof (swv_now_gen _ _ _ _ _ _ _ Ew) as Hn3. destruct (all_skipped kids2).
+    + apply bind_ok in H. destruct H as ([g4 p4] & Ef & H). inversion H; subst. cbn.
+      rewrite (sfin_now_gen _ _ _ _ _ _ _ _ Ef), Hn3, Hn2, Hb. reflexivity.
+    + apply bind_ok in H. destruct H as ([[[np5 g5] kids5] [[val5 notl5] bop5]] & E5 & H).
+      apply bind_ok in H. destruct H as (g6 & Ew6 & H). apply bind_ok in H. destruct H as ([g7 p7] & E7 & H).
+      apply bind_ok in H. destruct H as ([g9 p9] & E9 & H). inversion H; subst. cbn.
+      rewrite (sfin_now_gen _ _ _ _ _ _ _ _ E9), (sfin_now_gen _ _ _ _ _ _ _ _ E7), (swv_now_gen _ _ _ _ _ _ _ Ew6).
+      unfold strat_update_with in E5. apply bind_ok in E5. destruct E5 as ([kids0 [[[v0 nn0] b0] c0]] & _ & E5). inversion E5; subst.
+      match goal with |- g_now (set_g_capital ?v ?gg) = _ => change (g_now (set_g_capital v gg)) with (g_now gg) end. apply strat_roll_now.
+  - apply bind_ok in H. destruct H as (g2 & Ew & H). apply bind_ok in H. destruct H as ([g3 p3] & Ef & H). inversion H; subst. cbn.
+    rewrite (sfin_now_gen _ _ _ _ _ _ _ _ Ef), (swv_now_gen _ _ _ _ _ _ _ Ew). first [exact Hn1 | reflexivity].
+Qed.
+
 (* ---------- every date up to t ---------- *)
 Definition agree_upto (t : nat) (n : node) : Prop := forall j, j <= t -> agreeN j n.
 
@@ -542,6 +937,63 @@ Proof.
 Qed.
 End EL.
 
+(* ---------- the paper copies, level by level, and Backtest.run's loop ---------- *)
+Section Levels.
+Variable N : num.
+Variable A : Type.
+Variable F : nat -> cols N.
+Notation tree := (tree N A).
+Variable run : (option nat -> tree -> result tree) -> tree -> result tree.
+
+(* what is assumed of Strategy.run (the algos): on a tree standing on [date] it commutes with the swap of the securities'
+   off-row data, given that the paper step below does; it keeps every column and the clock *)
+Definition RUNS : Prop :=
+  forall psb (p : tree), PS N A F psb (root_now p) (row_of (root_now p)) -> PSA N A F psb (row_of (root_now p)) ->
+    agreeN N A F (row_of (root_now p)) (fst p) -> run psb (swapT N A F p) = rmap (swapT N A F) (run psb p).
+Definition RUNK : Prop :=
+  forall psb (p p' : tree), run psb p = Ok p' ->
+    root_now p' = root_now p /\ forall j, PSA N A F psb j -> agreeN N A F j (fst p) -> agreeN N A F j (fst p').
+
+Lemma bankrupt_swap (p : tree) :
+  match fst (swapT N A F p) with NStrat g _ _ _ => g_bankrupt g | NSec _ => false end =
+  match fst p with NStrat g _ _ _ => g_bankrupt g | NSec _ => false end.
+Proof. destruct p as [n st]. destruct n; reflexivity. Qed.
+
+Theorem paper_levels : RUNS -> RUNK -> forall l,
+  (forall date, PS N A F (paper_step_l run l) date (row_of date)) /\ (forall j, PSA N A F (paper_step_l run l) j).
+Proof.
+  intros HRS HRK. induction l as [|l [IHs IHa]].
+  - split; [intros date p _; reflexivity | intros j date p p' H; discriminate].
+  - split.
+    + intros date p Ha. cbn [paper_step_l].
+      rewrite (root_update_swap N A F _ date p (IHs date) (IHa _) Ha).
+      destruct (root_update (paper_step_l run l) date p) as [p1|] eqn:E1; cbn [rmap bind]; [|reflexivity].
+      pose proof E1 as Hn1; eapply root_update_now in Hn1; [|exact F].
+      pose proof (root_update_agree N A F _ date (row_of date) _ _ (IHa _) E1 Ha) as Ha1.
+      rewrite bankrupt_swap.
+      destruct (match fst p1 with NStrat g _ _ _ => g_bankrupt g | NSec _ => false end).
+      * apply refresh_swap; rewrite Hn1; auto.
+      * assert (R : run (paper_step_l run l) (swapT N A F p1) = rmap (swapT N A F) (run (paper_step_l run l) p1))
+          by (apply HRS; rewrite Hn1; auto).
+        rewrite R. destruct (run (paper_step_l run l) p1) as [p2|] eqn:E2; cbn [rmap bind]; [|reflexivity].
+        destruct (HRK _ _ _ E2) as [Hn2 Hk2]. pose proof (Hk2 _ (IHa _) Ha1) as Ha2.
+        rewrite (root_update_swap N A F _ date p2 (IHs date) (IHa _) Ha2).
+        destruct (root_update (paper_step_l run l) date p2) as [p3|] eqn:E3; cbn [rmap bind]; [|reflexivity].
+        pose proof E3 as Hn3; eapply root_update_now in Hn3; [|exact F].
+        pose proof (root_update_agree N A F _ date (row_of date) _ _ (IHa _) E3 Ha2) as Ha3.
+        apply refresh_swap; rewrite Hn3; auto.
+    + intros j date p p' H Ha. cbn [paper_step_l] in H.
+      apply bind_ok in H. destruct H as (p1 & E1 & H).
+      pose proof (root_update_agree N A F _ date j _ _ (IHa _) E1 Ha) as Ha1.
+      destruct (match fst p1 with NStrat g _ _ _ => g_bankrupt g | NSec _ => false end).
+      * eapply refresh_agree; [exact (IHa j) | exact H | exact Ha1].
+      * apply bind_ok in H. destruct H as (p2 & E2 & H). destruct (HRK _ _ _ E2) as [_ Hk2]. pose proof (Hk2 _ (IHa _) Ha1) as Ha2.
+        apply bind_ok in H. destruct H as (p3 & E3 & H).
+        pose proof (root_update_agree N A F _ date j _ _ (IHa _) E3 Ha2) as Ha3.
+        eapply refresh_agree; [exact (IHa j) | exact H | exact Ha3].
+Qed.
+End Levels.
+
 (* the hypotheses on the paper step are satisfiable (a tree without paper-trading sub-strategies never calls it), and a
    security's own columns agree with themselves *)
 Example ps_identity_ok (N : num) (A : Type) (F : nat -> cols N) date j :
@@ -551,3 +1003,56 @@ Proof. split; [intros p _; reflexivity | intros d p p' H Ha; inversion H; subst;
 Example agree_self (N : num) i (s : sec N) :
   agree N i s (mkCols N (s_prices s) (s_bidoffers s) (s_coupons s) (s_cost_long s) (s_cost_short s)).
 Proof. unfold agree, ocol_agree; cbn. destruct (s_prices s), (s_coupons s), (s_cost_long s), (s_cost_short s); auto 10. Qed.
+
+(* ---------- Backtest.run's loop ---------- *)
+Require Import BT.Algos.
+Section Loop.
+Variable N : num.
+Notation A := (astate N).
+Variable F : nat -> cols N.
+Variable e : env N.
+Notation tree := (tree N A).
+Let run := fun (ps : option nat -> tree -> result tree) (tr : tree) => strat_run ps depth_fuel e [] tr.
+Let ps := bt_paper_step e bt_level.
+
+(* The whole date loop of Backtest.run — update, Strategy.run, update on every date, bankruptcy and liquidation, the
+   paper copies of every nesting level — commutes with replacing the securities' data by any data that agrees with it
+   on the rows the loop visits, PROVIDED Strategy.run (the algos) does: the engine adds no look-ahead of its own. *)
+Theorem bt_loop_swap : RUNS N A F run -> RUNK N A F run -> forall rows (tr : tree),
+  (forall i, In i rows -> agreeN N A F i (fst tr)) ->
+  bt_loop e rows (swapT N A F tr) = rmap (swapT N A F) (bt_loop e rows tr).
+Proof.
+  intros HRS HRK. destruct (paper_levels N A F run HRS HRK bt_level) as [HPS HPA]. fold run in HPS, HPA.
+  change (paper_step_l run bt_level) with ps in HPS, HPA.
+  induction rows as [|i rows IH]; intros tr Ha; [reflexivity|].
+  cbn [bt_loop]. fold ps.
+  assert (Hi : agreeN N A F (row_of (Some i)) (fst tr)) by (apply Ha; left; reflexivity).
+  rewrite (root_update_swap N A F ps (Some i) tr (HPS _) (HPA _) Hi).
+  destruct (root_update ps (Some i) tr) as [t1|] eqn:E1; cbn [rmap bind]; [|reflexivity].
+  assert (K1 : forall j, agreeN N A F j (fst tr) -> agreeN N A F j (fst t1)) by (intros j Hj; eapply root_update_agree; eauto).
+  pose proof E1 as Hn1; eapply root_update_now in Hn1; [|exact F].
+  assert (Hsame : match fst (swapT N A F t1) with NStrat g _ _ _ => g_bankrupt g | NSec _ => false end =
+                  match fst t1 with NStrat g _ _ _ => g_bankrupt g | NSec _ => false end) by apply bankrupt_swap.
+  destruct t1 as [n1 st1]. destruct n1 as [s1|g1 k1 lz1 pp1]; [reflexivity|].
+  cbn [swapT fst snd swapN] in *. destruct (g_bankrupt g1).
+  - cbn [bind]. apply IH. intros j Hj. apply (K1 j). apply Ha. right. exact Hj.
+  - change (NStrat g1 (map (swapN N A F) k1) lz1 match pp1 with Some (pn, st) => Some (swapN N A F pn, st) | None => None end, st1)
+      with (swapT N A F (NStrat g1 k1 lz1 pp1, st1)).
+    assert (R : strat_run ps depth_fuel e [] (swapT N A F (NStrat g1 k1 lz1 pp1, st1)) =
+                rmap (swapT N A F) (strat_run ps depth_fuel e [] (NStrat g1 k1 lz1 pp1, st1))).
+    { apply (HRS ps (NStrat g1 k1 lz1 pp1, st1)); rewrite Hn1; [apply HPS | apply HPA | apply (K1 _ Hi)]. }
+    rewrite R. destruct (strat_run ps depth_fuel e [] (NStrat g1 k1 lz1 pp1, st1)) as [t2|] eqn:E2; cbn [rmap bind]; [|reflexivity].
+    destruct (HRK ps _ _ E2) as [Hn2 Hk2].
+    rewrite (root_update_swap N A F ps (Some i) t2 (HPS _) (HPA _) (Hk2 _ (HPA _) (K1 _ Hi))).
+    destruct (root_update ps (Some i) t2) as [t3|] eqn:E3; cbn [rmap bind]; [|reflexivity].
+    apply IH. intros j Hj. eapply root_update_agree; [apply HPA | exact E3 |]. apply Hk2; [apply HPA|]. apply K1. apply Ha. right. exact Hj.
+Qed.
+End Loop.
+
+(* the hypotheses on Strategy.run are satisfiable: a tree of bare StrategyBase nodes (run is a no-op: the engine-level
+   histories of the correspondence suites) meets them *)
+Example runs_noop_ok (N : num) (A : Type) (F : nat -> cols N) :
+  RUNS N A F (fun _ t => Ok t) /\ RUNK N A F (fun _ t => Ok t).
+Proof.
+  split; [intros psb p _ _ _; reflexivity|]. intros psb p p' H. inversion H; subst. split; [reflexivity | intros j _ Ha; exact Ha].
+Qed.
